@@ -22,7 +22,7 @@ ASSUMPTIONS = ["exact rational arithmetic (fractions) for all predicates", "quer
 FLOORS = {'quick': {'ray-status': 1500, 'ray-params': 500, 'is_left': 1500, 'wn_poly': 5000, 'hull': 300, 'voxel-fill': 1500,
                     'voxel-cover': 500, 'find_ctrlpts': 300},
           'thorough': {'ray-status': 15000, 'wn_poly': 50000, 'hull': 3000, 'voxel-fill': 15000}}
-MANDATORY_TAGS = ['ray:shared-far-end', 'vox:lattice', 'vox:padding=0.0', 'ray:cross2d', 'ray:cross3d', 'ray:parallel', 'ray:coincident', 'ray:skew', 'vox:planar-axis-aligned', 'vox:padding', 'ray:near-parallel', 'is_left:near-collinear', 'hull:float-near-collinear', 'ray:generic-cross2d', 'ray:generic-cross3d', 'ray:coords<=1000', 'ray:scale=2^-24', 'ray:scale=2^20', 'poly:star', 'poly:orthogonal',
+MANDATORY_TAGS = ['vox:other-unit-of-length', 'ray:shared-far-end', 'vox:lattice', 'vox:padding=0.0', 'ray:cross2d', 'ray:cross3d', 'ray:parallel', 'ray:coincident', 'ray:skew', 'vox:planar-axis-aligned', 'vox:padding', 'ray:near-parallel', 'is_left:near-collinear', 'hull:float-near-collinear', 'ray:generic-cross2d', 'ray:generic-cross3d', 'ray:coords<=1000', 'ray:scale=2^-24', 'ray:scale=2^20', 'poly:star', 'poly:orthogonal',
                   'poly:cw', 'poly:ccw', 'hull:collinear', 'vox:surface', 'vox:volume', 'vox:cubes', 'find:unnormalized']
 TECHNIQUE = ("runtime monitoring: exact-arithmetic oracles (orientation, crossing parity, definitional hull test, exact line "
              "intersection, point-in-box) on every predicate / query call of a constructed-class workload")
@@ -467,6 +467,12 @@ def check_voxel(case, ctx):
     rng = random.Random(case['seed'])
     pdim = rng.choice([2, 3])
     sd = G.rand_shape(rng, pdim, dim=3, clamped_only=True, maxextra=2, maxdeg=3, pcls='uniform')
+    f_ = 1.0
+    if rng.random() < 0.25:
+        # the same model in another unit of length (an exact power of two): the same voxels are filled
+        f_ = 2.0 ** rng.choice([-20, -24, -30, 20])
+        sd['ctrlpts'] = [[c * f_ for c in p_] for p_ in sd['ctrlpts']]
+        ctx.tag('vox:other-unit-of-length')
     o = G.build(sd)
     o.sample_size = rng.randint(3, 6) if pdim == 2 else rng.randint(2, 3)
     gs = tuple(rng.randint(2, 8) for _ in range(3))
@@ -477,7 +483,7 @@ def check_voxel(case, ctx):
     planar = pdim == 2 and rng.random() < 0.25
     if planar:
         # a planar, axis-aligned surface: the bounding box has zero extent along one axis
-        ax0, c0 = rng.randrange(3), float(rng.randint(-3, 3))
+        ax0, c0 = rng.randrange(3), float(rng.randint(-3, 3)) * f_
         for pt in sd['ctrlpts']:
             pt[ax0] = c0
         o = G.build(sd)
@@ -509,7 +515,13 @@ def check_voxel(case, ctx):
                   'keyword has no effect)' % (big, sum(1 for x in f2 if x), len(f2)), what='voxel-fill')
     pts = [list(p) for p in o.evalpts]
     bb = o.bbox
-    tol = 10e-8
+    # slack of the containment oracles: relative to the voxel (2e-6 of its edge; the library pads a voxel by 1e-7 of a unit-sized model),
+    # for an axis along which the box is flat 2e-7 of the model size
+    emax_ = max(bb[1][ax] - bb[0][ax] for ax in range(3))
+    if len(grid) > 0:
+        slack = [2e-6 * (grid[0][1][ax] - grid[0][0][ax]) if grid[0][1][ax] - grid[0][0][ax] > 1e-9 * emax_ else 2e-7 * min(1.0, emax_)
+                 for ax in range(3)]
+    tol = 1e-7 * min(1.0, emax_)
     if not ctx.check(len(grid) == len(filled) and len(grid) > 0, 'voxel/length', 'len(grid)=%d len(filled)=%d' % (len(grid), len(filled)),
                      what='voxel-cover'):
         return
@@ -529,12 +541,12 @@ def check_voxel(case, ctx):
         ctx.check(lo <= bb[0][ax] + tol and hi >= bb[1][ax] - tol, 'voxel/grid-does-not-cover-bbox',
                   'axis %d: voxels span [%r, %r], bounding box [%r, %r]' % (ax, lo, hi, bb[0][ax], bb[1][ax]), what='voxel-cover')
     for p in pts:
-        cov = any(all(v[0][i] - 2 * tol <= p[i] <= v[1][i] + 2 * tol for i in range(3)) for v in grid)
+        cov = any(all(v[0][i] - slack[i] <= p[i] <= v[1][i] + slack[i] for i in range(3)) for v in grid)
         if not ctx.check(cov, 'voxel/point-not-covered', 'sampled point %r lies in no voxel of the grid' % (p,), what='voxel-cover'):
             break
     for i, v in enumerate(grid):
-        strict = any(all(v[0][k] + 2 * tol < p[k] < v[1][k] - 2 * tol for k in range(3)) for p in pts)
-        loose = any(all(v[0][k] - 2 * tol <= p[k] <= v[1][k] + 2 * tol for k in range(3)) for p in pts)
+        strict = any(all(v[0][k] + slack[k] < p[k] < v[1][k] - slack[k] for k in range(3)) for p in pts)
+        loose = any(all(v[0][k] - slack[k] <= p[k] <= v[1][k] + slack[k] for k in range(3)) for p in pts)
         if strict and not filled[i]:
             ctx.fail('voxel/not-filled', 'voxel %d [%r, %r] contains a sampled point but filled = %r' % (i, v[0], v[1], filled[i]))
             return
